@@ -26,13 +26,15 @@ fn space_for(tier: Tier) -> Space {
     let mut s = Space::new();
     match tier {
         Tier::Quick => {
-            s.ast("K", 4, 64).ast("Q", 2, 64).ast("CL", 3, 64).ast("G", 5, 64).ast("AN", 3, 64).ast("U", 3, 64);
+            s.ast("K", 4, 64).ast("Q", 2, 64).ast("CL", 3, 64).ast("G", 5, 64).ast("AN", 3, 64).ast("U", 3, 64).ast("ALT", 3, 64).ast("NEST", 5, 64).ast("CAPQ", 5, 64).ast("BR", 4, 64);
+            // one more kernel level, lighter: flags "" and "m", inputs of length <= 2
+            s.ast_range("K", 5, 5, 256, 2);
             s.tok("T", &gen::T_FULL, 3, 64).tok("T0", &gen::T_CORE, 3, 64);
             s.list("flagstrings", 1 + 11 + 121 + 1331, 128);
             s.list("triggers", crate::checks::c08::triggers().len() as u64, 16);
         }
         Tier::Thorough => {
-            s.ast("K", 5, 64).ast("Q", 3, 64).ast("CL", 3, 64).ast("G", 6, 64).ast("AN", 4, 64).ast("U", 4, 64).ast("CI", 3, 64);
+            s.ast("K", 5, 64).ast("Q", 3, 64).ast("CL", 3, 64).ast("G", 6, 64).ast("AN", 4, 64).ast("U", 4, 64).ast("CI", 3, 64).ast("ALT", 4, 64).ast("NEST", 6, 64).ast("GCM", 4, 64).ast("CAPQ", 6, 64).ast("BR", 5, 64);
             s.tok("T", &gen::T_FULL, 3, 64).tok("T0", &gen::T_CORE, 5, 64);
             s.list("flagstrings", 1 + 11 + 121 + 1331, 128);
             s.list("triggers", crate::checks::c08::triggers().len() as u64, 16);
@@ -152,9 +154,11 @@ impl Check for Crash {
         match &seg.kind {
             SegKind::Ast { scope, .. } => {
                 let sigma = gen::scope(scope).sigma;
-                let inputs = all_strings(&sigma, 3);
+                let light = seg.param > 0;
+                let inputs = all_strings(&sigma, if light { seg.param } else { 3 });
+                let menu: &[&str] = if light { &["", "m"] } else { &FLAG_MENU_AST };
                 space::for_each_text(seg, lo, hi, &mut |_i, text| {
-                    for flags in FLAG_MENU_AST {
+                    for flags in menu.iter().copied() {
                         j.out.pin(&|| format!("compile {:?} {:?}", text, flags));
                         let c = imp::compile(text, flags, false);
                         j.obs(&Case::new(&scope_name, text, flags).api("compile"), &c, &[EK::Syntax, EK::InvalidFlags]);
@@ -190,7 +194,7 @@ impl Check for Crash {
             }
             SegKind::List { name: "triggers" } => {
                 let t = crate::checks::c08::triggers();
-                let inputs: Vec<String> = ["", "a", "aa", "ab", "aab", "abab", "1", "a1", "b\na", "aaaa"].iter().map(|s| s.to_string()).collect();
+                let inputs: Vec<String> = ["", "a", "aa", "ab", "aab", "abab", "1", "a1", "b\na", "aaaa", "a)]b", "-[-", "(x)", "]a[", "a\\^"].iter().map(|s| s.to_string()).collect();
                 for i in lo..hi {
                     let text = &t[i as usize];
                     for flags in FLAG_MENU_AST {
